@@ -31,6 +31,7 @@ func runC07(c *Ctx) {
 	c04R3As(c, c.R.Rule("R12", "K5/K2/K3 (= C04.R3) a failed DLQ hand-off blocks the fan-out cursor: multiAckNacker.released advances only after the parent Ack/Nack for that position succeeded, under m.mu, never past a non-terminal position", 30))
 	c01R2As(c, c.R.Rule("R13", "K3 (= C01.R2) the v1 DLQ write needs evidence of success: DLQDestination.Write returns nil only for exactly one ack whose position equals the written record's and that carries no error", 5))
 	c08R9As(c, c.R.Rule("R9", "K6 (= C08.R9) the error lands on the record that was rejected: with filtered records present, Batch.setFlagNoErr/setFlagWithErr address recordStatuses only through the active-index map, entry by entry", 4))
+	c08R15As(c, c.R.Rule("R14", "K3 (= C08.R15) a destination's rejection reaches the record it was issued for: nacking a piece of a split run never re-activates a filtered sibling, so the active indices of a later ack response still address the records that were written (a rejected record is dead-lettered, not acked)", 1))
 	c01R1As(c, c.R.Rule("R10", "K1 (= C01.R1) closed ack entry points: Worker.Ack (which also credits the DLQ window) is reached only from the tabled ack-forwarding functions — never from the nack path, which would count a dead-lettered record as a nack and an ack", 13))
 }
 
